@@ -91,7 +91,15 @@ pub fn gen_case(seed: u64, run: u64, faults: bool) -> Case {
         };
         let op = match r.below(20) {
             0..=7 => {
-                let (_, argv) = gen::argv(&mut r, &live[p]);
+                let (_, mut argv) = gen::argv(&mut r, &live[p]);
+                if name.is_none() && r.chance(1, 10) {
+                    // without an application name this is an ordinary unknown flag; with one
+                    // it is the documented "print the completion script and exit" request,
+                    // which is C11's business and is not generated here
+                    let style = *r.pick(&["bash", "zsh", "fish", "elvish"][..]);
+                    let at = r.below(argv.len() + 1);
+                    argv.insert(at, format!("--bpaf-complete-style-{}", style).into_bytes());
+                }
                 Op::Run {
                     p,
                     argv,
@@ -153,6 +161,7 @@ pub fn gen_case(seed: u64, run: u64, faults: bool) -> Case {
         parsers,
         env,
         ops,
+        interlude: Vec::new(),
     }
 }
 
@@ -336,6 +345,9 @@ pub fn run_case(case: &Case, stats: &mut Stats) -> RunReport {
         seam_events += first.env_reads.len() as u64 + (first.cb_fail + first.cb_panic) as u64;
         classes.insert(first.outcome.class());
         h.write_str(&format!("{:?}", first.outcome));
+        report
+            .trace
+            .push(format!("op {} {}: {}", ix, op.kind(), describe(&first)));
         h.write(&first.out);
         h.write(&first.err);
         h.write_u64(first.ticks);
@@ -433,8 +445,15 @@ pub fn run_case(case: &Case, stats: &mut Stats) -> RunReport {
             );
         }
         // ---- T2 / T6: fresh twin
-        let twin = exec::build_unchecked(&live[p].opts);
-        let fresh = exec_op(op, &twin);
+        let fresh = {
+            let opts = live[p].opts.clone();
+            let op2 = op.clone();
+            let env = world::with(|s| s.env.clone());
+            exec::on_fresh_thread(env, move || {
+                let twin = exec::build_unchecked(&opts);
+                exec_op(&op2, &twin)
+            })
+        };
         let rule = if live[p].unwound && !matches!(first.outcome, Outcome::Injected(_)) {
             stats.bump("rule.T6.evaluated");
             "T6"
@@ -457,7 +476,6 @@ pub fn run_case(case: &Case, stats: &mut Stats) -> RunReport {
                 )
             );
         }
-        drop(twin);
         // ---- T4b: undeclared variables are invisible
         let saved = scramble_undeclared(&declared);
         let framed = exec_op(op, &live[p].parser);
